@@ -12,7 +12,7 @@ from ..world import World, content_bytes
 
 ID = "C12"
 LEVEL = "exploration"
-BUDGET = {"quick": {"n": 110, "wall_s": 420}, "thorough": {"n": 4000, "wall_s": 3300}}
+BUDGET = {"quick": {"n": 220, "wall_s": 420}, "thorough": {"n": 4000, "wall_s": 3300}}
 RULE = ("per history (length 1..6): before every step 0..3 edits drawn from {create, modify same length, append, "
         "truncate, rename/move, delete+recreate presenting the OLD inode number (seam relabelling), add hard link, "
         "swap two files} on files that share long prefixes and suffixes, each stamped with the simulated now (steps >= "
@@ -38,8 +38,12 @@ def gen_case(seed, i):
     text = False
     if rng.random() < 0.25:
         t = rng.choice([x for x in xform.TRANSFORMS if "$OUT" not in x[0] and not ("--in-place" in x[1] and "--no-copy" in x[1])])
-        base = dict(base, transform=t[0], transform_flags=list(t[1]))
         text = rng.random() < 0.5
+        if rng.random() < 0.3:
+            # a program that fails on SOME files only, after writing part of its output (text worlds: the files whose
+            # flipped byte left the ASCII range)
+            t, text = [x for x in xform.TRANSFORMS if x[0].startswith("iconv")][0], True
+        base = dict(base, transform=t[0], transform_flags=list(t[1]))
     b = base["bounds"]
     n_long = max(b["suffix_threshold"] + b["suffix"] + 40, 3 * b["buf"], 200)
     w = World()
